@@ -32,6 +32,7 @@ type CaseResult struct {
 	Steps    int      `json:"steps,omitempty"`
 	Tags     []string `json:"tags,omitempty"`
 	Skipped  string   `json:"skipped,omitempty"`
+	CaseFile string   `json:"case_file,omitempty"`
 }
 
 type resultWriter struct {
@@ -74,6 +75,12 @@ func genOptsFor(profile string) GenOpts {
 		o.NoTies = true
 	case "nostartend":
 		o.NoStartEnd = true
+	case "selpair":
+		o.Focus = profile
+		o.MaxSeries = 8
+	case "range", "agg", "bin", "func":
+		o.Focus = profile
+		o.MaxDepth = 2
 	}
 	return o
 }
@@ -87,17 +94,39 @@ func cmdDiff(args []string) {
 	out := fs.String("out", "", "output jsonl")
 	profile := fs.String("profile", "", "generator profile")
 	one := fs.String("replay", "", "replay file (json case)")
+	qOverride := fs.String("query", "", "override the generated query (replay of witnesses)")
+	fs.String("dump-failing", "", "directory receiving an explicit case file for every failing case")
 	must(fs.Parse(args))
 	rw := newResultWriter(*out)
 	o := genOptsFor(*profile)
-	_ = one
+	caseDir := fs.Lookup("dump-failing").Value.String()
+	if *one != "" {
+		c := loadCaseFile(*one)
+		if *qOverride != "" {
+			c.Query = *qOverride
+		}
+		rw.put(CaseResult{Kind: "start", ID: -1, Query: c.Query})
+		res := runOracle(*mode, c)
+		res.Kind, res.ID, res.Mode, res.Query, res.Window = "done", -1, *mode, c.Query, c.Window
+		res.Lookback, res.QLook, res.Procs, res.NSeries = c.Lookback, c.QLookback, c.Procs, len(c.Data)
+		res.Steps = len(c.Window.Grid())
+		rw.put(res)
+		return
+	}
 	for id := *from; id < *to; id++ {
 		c := genCase(*seed, id, o)
+		if *qOverride != "" {
+			c.Query = *qOverride
+		}
 		rw.put(CaseResult{Kind: "start", ID: id, Query: c.Query})
 		res := runOracle(*mode, c)
 		res.Kind, res.ID, res.Mode, res.Query, res.Window = "done", id, *mode, c.Query, c.Window
 		res.Lookback, res.QLook, res.Procs, res.NSeries = c.Lookback, c.QLookback, c.Procs, len(c.Data)
 		res.Steps = len(c.Window.Grid())
+		if res.Fail != "" && caseDir != "" {
+			res.CaseFile = fmt.Sprintf("%s/case_%s_%s_%d_%d.json", caseDir, *mode, *profile, *seed, id)
+			writeCaseFile(res.CaseFile, c)
+		}
 		rw.put(res)
 	}
 }
@@ -133,6 +162,7 @@ func oracleRef(c *Case) CaseResult {
 	if d != "" {
 		res.Fail = d
 		res.Impl, res.Ref = trunc(impl.String(), 600), trunc(ref.String(), 600)
+		res.Tags = classifyRefFailure(c, impl, ref)
 	}
 	return res
 }
